@@ -24,7 +24,7 @@ Monitors
 import itertools
 
 from verif.gen import kits
-from verif.instrument import safe_repr
+from verif.instrument import safe_repr, fingerprint
 from verif.models import meval, wiring, struct
 from verif.models import interchange_model as im
 from verif.models.typing import well_typed, tykey
@@ -155,8 +155,10 @@ def trace(ctx, d, left, connected, interp):
     current, steps = d, 0
     witness = dict(diagram=lambda: safe_repr(d), offsets=d.offsets, left=left)
     seen = {layers}
+    log = []
     for step in d.normalize(left=left):
         steps += 1
+        log.append((step, fingerprint(step)))
         if steps > cap:
             if connected:
                 ctx.fail("terminates-within-cap", steps=steps, cap=cap, **witness)
@@ -185,7 +187,24 @@ def trace(ctx, d, left, connected, interp):
         seen.add(layers)
     ctx.ok("terminates-within-cap")
     ctx.count("normalize_steps", steps)
+    steps_stable(ctx, log, witness)
     return current
+
+
+def steps_stable(ctx, log, witness, monitor="step-is-one-legal-exchange"):
+    """
+    Prefixes of the trace: a step that was a legal exchange when it was yielded
+    must still be the same value once the generator has moved on (a caller
+    that collects list(d.normalize()) looks at every step afterwards).
+    """
+    for k, (step, before) in enumerate(log):
+        now = fingerprint(step)
+        ctx.expect(monitor, now == before, step_number=k + 1,
+                   reason="a step yielded earlier changed after the generator "
+                   "advanced", offsets_when_yielded=list(before[0]),
+                   offsets_now=list(now[0]), **witness)
+        if now != before:
+            break
 
 
 def sound(ctx, monitor, d, result, interp, **extra):
@@ -354,6 +373,7 @@ def run_case(rng, ctx):
     if len(members) >= 4:
         ctx.count("classes_with_4_or_more_members")
     ctx.count("class_members_normalised", len(members))
+    refs = {}
     for left in (False, True):
         # trace monitor on the input itself and on a few scrambled members
         for member_layers in [members[rng.randrange(len(members))]
@@ -372,6 +392,7 @@ def run_case(rng, ctx):
                        diagram=lambda: safe_repr(d), left=left)
         if not sound(ctx, "result-sound", d, reference, interp, left=left):
             continue
+        refs[left] = reference
         # idempotence
         again, _ = normal_form(ctx, reference, left, connected)
         extra_steps = list(itertools.islice(reference.normalize(left=left), 3))
@@ -399,6 +420,7 @@ def run_case(rng, ctx):
                        normal_form_of_member=lambda: safe_repr(value),
                        normal_form_of_member_offsets=lambda: value.offsets,
                        class_size=len(members), class_closed=closed)
+    returned_values_fed_back(ctx, d, refs, connected)
     foliation_case(ctx, d, connected, interp, members if closed else None)
     ctx.expect("operands-unchanged", im.model_of(d)[0] == layers
                and repr(struct.key(d)) == key_before,
@@ -410,10 +432,55 @@ def run_case(rng, ctx):
                    class_size=len(members), class_closed=closed)
 
 
+def returned_values_fed_back(ctx, d, refs, connected):
+    """
+    Histories.  The default path (no `normalizer=`) on the input, then the very
+    objects it returned fed back in with the same and with the other
+    orientation: the answers depend on the value, never on where the object
+    came from.  Only run when the step-counted run above terminated.
+    """
+    for left, reference in refs.items():
+        witness = dict(diagram=lambda: safe_repr(d), offsets=d.offsets, left=left,
+                       normal_form=lambda: safe_repr(reference),
+                       normal_form_offsets=lambda: reference.offsets)
+        try:
+            plain = d.normal_form(left=left)
+        except NotImplementedError:
+            ctx.expect("refusal-only-if-disconnected", not connected,
+                       where="default normalizer", **witness)
+            continue
+        ctx.expect("result-sound", plain == reference
+                   and struct.key(plain) == struct.key(reference),
+                   reason="normal_form() with the default normalizer differs from "
+                   "the step-counted run", got=lambda: safe_repr(plain),
+                   got_offsets=lambda: plain.offsets, **witness)
+        try:
+            again = plain.normal_form(left=left)
+            ctx.expect("idempotent", again == plain, where="returned object fed "
+                       "back in", again=lambda: safe_repr(again),
+                       again_offsets=lambda: again.offsets, **witness)
+            if connected and (not left) in refs:
+                other = plain.normal_form(left=not left)
+                ctx.expect("canonical", other == refs[not left]
+                           and struct.key(other) == struct.key(refs[not left]),
+                           where="normal form with one orientation fed into the "
+                           "other orientation", got=lambda: safe_repr(other),
+                           got_offsets=lambda: other.offsets,
+                           expected_offsets=lambda: refs[not left].offsets, **witness)
+                back = other.normal_form(left=left)
+                ctx.expect("canonical", back == reference, where="there and back",
+                           got_offsets=lambda: back.offsets, **witness)
+        except NotImplementedError:
+            ctx.expect("refusal-only-if-disconnected", not connected,
+                       where="normal form fed back in", **witness)
+
+
 def foliation_case(ctx, d, connected, interp, members):
     last = d
     count = 0
+    log = []
     for item in d.foliate():
+        log.append((item, fingerprint(item)))
         count += 1
         if count > 400:
             ctx.fail("foliation", reason="more than 400 foliate steps",
@@ -422,6 +489,8 @@ def foliation_case(ctx, d, connected, interp, members):
         if not sound(ctx, "foliation", d, item, interp, what="foliate step"):
             return
         last = item
+    steps_stable(ctx, log, dict(diagram=lambda: safe_repr(d), offsets=d.offsets),
+                 monitor="foliation")
     *_, slices = d.foliate(yield_slices=True)
     fol = d.foliation()
     witness = dict(diagram=lambda: safe_repr(d), offsets=d.offsets,
